@@ -394,12 +394,18 @@ func (gen *Generator) GenerateShortCircuit(or bool, args []Sexp) error {
 	subgen.scopes = gen.scopes
 	subgen.Tail = gen.Tail
 	subgen.funcname = gen.funcname
-	subgen.Generate(args[size-1])
+	err := subgen.Generate(args[size-1])
+	if err != nil {
+		return err
+	}
 	instructions := subgen.instructions
 
 	for i := size - 2; i >= 0; i-- {
 		subgen = gen.NewSubGenerator()
-		subgen.Generate(args[i])
+		err = subgen.Generate(args[i])
+		if err != nil {
+			return err
+		}
 		subgen.AddInstruction(DupInstr(0))
 		subgen.AddInstruction(BranchInstr{or, len(instructions) + 2})
 		subgen.AddInstruction(PopInstr(0))
